@@ -157,23 +157,35 @@ static std::unique_ptr<program> make_program(vlog::rng& R, int ntasks)
     auto P = std::make_unique<program>();
     P->t.resize(ntasks + 1);
     P->sem.resize(ntasks + 1);
+    // "trickle": one root that creates all other tasks one at a time at the end of its body, each of them short:
+    // again and again the root is the only task alive while a child is created, runs and terminates
+    bool trickle = R.chance(1, 4);
     for (int i = 1; i <= ntasks; ++i)
     {
         tdesc& d = P->t[i];
         d.id = i;
         // parent: 0 (root, submitted from outside or by the entry function) or an earlier task
         d.parent = (i == 1 || R.chance(1, 4)) ? 0 : 1 + (int) R.below(i - 1);
+        if (trickle && i > 1) d.parent = 1;
         d.yields = (int) R.below(4);
         d.wait_children = R.chance(1, 3);
         d.prio = R.chance(1, 5) ? 1 + (int) R.below(2) : 0;
         d.stack = R.chance(1, 4) ? 1 + (int) R.below(3) : 0;
         d.spin = (int) R.below(3);
         d.boost = R.chance(1, 4) ? 1 + (int) R.below(40) : 0;
+        if (trickle && i > 1)
+        {
+            d.yields = (int) R.below(2);
+            d.wait_children = false;
+            d.boost = 0;
+            d.spin = 0;
+        }
         if (d.parent > 0) P->t[d.parent].children.push_back(i);
     }
     for (int i = 1; i <= ntasks; ++i)
     {
         P->t[i].late_spawn = !P->t[i].children.empty() && R.chance(1, 3);
+        if (trickle && i == 1 && !P->t[i].children.empty()) P->t[i].late_spawn = true;
         if (P->t[i].late_spawn) P->t[i].wait_children = false;
     }
     for (int i = 1; i <= ntasks; ++i)
@@ -227,6 +239,8 @@ int main(int argc, char** argv)
     vctl::g_seed = seed;
     if (perturb)
         vctl::install(seed, 15, 100, 150, "sl.got,sl.active,sl.store,tq.,sts.,agent.yield,gac.,tm.,sb.suspend.,pool.pu.");
+        // long enough for a freshly created task to run to completion on another worker
+        vctl::hot("tq.create.staged", 40, 700);
     pika::verif::exchange_hook(&monitor_hook);
     vlog::rng R(seed * 16807 + 3);
 
